@@ -1,27 +1,28 @@
 SPEC = {
     "id": "C05",
     "n": {"quick": 700, "thorough": 20000},
+    "search": {"n": 1500, "timeout": 900},
     "components": {"1": "an observed atomic section of Invoke is not an enabled step of the model",
                    "2": "an observable differs (group joined, index, created/joined, MaxSize roll-over, still published at the second mutex section, arguments seen by Many, value / error returned)",
                    "3": "which callers returned"},
     "corr_name": "Batch.Model (step / replay) vs batch.Func.Invoke (batch/batch.go) observed through the verifhook points inside and between its mutex sections",
     "harness_timeout": {"quick": 900, "thorough": 7200},
     "trusted_base": [
-        "Coq 8.16.1 kernel and vm_compute (no native_compute); Print Assumptions of all 7 theorems: closed under the global context",
-        "hand-written transition system coq/theories/Batch/Model.v (one label per atomic section of Invoke; one batchContext, one Func; timers and Many are unconstrained), tied to batch.go by the trace-conformance check only",
+        "Coq 8.16.1 kernel and vm_compute (no native_compute); Print Assumptions of all 9 theorems: closed under the global context",
+        "hand-written transition system coq/theories/Batch/Model.v (one label per atomic section of Invoke; one batchContext, any number of Funcs keyed by (Func, shard); timers and Many are unconstrained), tied to batch.go by the trace-conformance check only",
         "Go harness harness/cmd/c05 + harness/pkg/sched (free-running recorder: one log under a mutex, holds, seeded perturbation; cancellation fired inside the log's critical section; generator; oracle; Coq term printer); verifhook call sites of patches/C05-hooks.patch (join / maxsize points inside bctx.mu before close(maxSizeCh), so the log order of joins is the real order)",
         "Go runtime: sync.Mutex, channels, timers, context; the Go memory model (data races inside one atomic section are not modelled)",
     ],
     "assumptions": [
-        "one batchContext and one Func per model instance (groups of different Funcs live under different map keys and never interact)",
+        "one batchContext per model instance; Funcs are numbers, pendingBatchGroups is keyed by (Func, shard) and each Func has its own MaxSize; the harness runs one or two Funcs with equal shard values",
         "a wake-up by the interval or max-duration timer may happen at any time (nothing is assumed about time); Many may return any results of any length, an error, or panic",
-        "only the creator's context matters to Invoke (select and ctx.Err() test); waiters' contexts are only passed to TemporarilyRelease",
+        "only the creator's context matters to Invoke (select and ctx.Err() test); a waiter's context is only passed to TemporarilyRelease: theorem waiter_context_ignored, and the harness cancels waiters' contexts too",
         "liveness is proved as enabledness (every group's creator has at most four enabled steps left to done; then every Return is enabled), not as a temporal property of the Go scheduler; Many is assumed to return or panic",
         "the placement of the lazily linearised LCtxCancel label in the replayed trace is chosen by the harness within the window in which cancel() ran; the model checks that the resulting trace is a behaviour",
     ],
     "manifest": {
-        "text": "Coq theorems (Props/C05.v) over a labelled transition system of batch.Func.Invoke hold for every MaxSize, every schedule and every reachable state: a caller that returned got element index of what Many returned for exactly its group's arguments, or the group's error; every argument sits in exactly one group at its recorded index; Many is called at most once per group, exactly once unless the creator's context was cancelled, with the final argument list; groups never exceed MaxSize and never mix shards; every group reaches done within four creator steps and then every Return is enabled. On every run a Go harness drives 2-40 concurrent callers through the real Invoke with tiny timers, holds at hook points (join after wake-up, join after unpublish, MaxSize roll-over), cancellations and failing / panicking / wrong-length batch functions, replays every logged section and observable through the Coq model, and evaluates the property directly on what callers got and what Many saw.",
-        "note": "Trusted: Coq kernel + vm_compute; the hand-written model (tied to the code by trace conformance at the granularity of the hook points); the Go harness and recorder; sync.Mutex / channel / timer semantics. Fairness and wall-clock behaviour of timers are outside the model; one Func per model instance.",
+        "text": "Coq theorems (Props/C05.v) over a labelled transition system of batch.Func.Invoke hold for every MaxSize, every schedule and every reachable state: a caller that returned got element index of what Many returned for exactly its group's arguments, or the group's error; every argument sits in exactly one group at its recorded index; Many is called at most once per group, exactly once unless the creator's context was cancelled, with the final argument list; groups never exceed their Func's MaxSize and never mix shards or Funcs (two Funcs with equal shard values never share a group); a waiter's own context is ignored; every group reaches done within four creator steps and then every Return is enabled. On every run a Go harness drives 2-40 concurrent callers through the real Invoke with tiny timers, holds at hook points (join after wake-up, join after unpublish, MaxSize roll-over), cancellations and failing / panicking / wrong-length batch functions, replays every logged section and observable through the Coq model, and evaluates the property directly on what callers got and what Many saw.",
+        "note": "Trusted: Coq kernel + vm_compute; the hand-written model (tied to the code by trace conformance at the granularity of the hook points); the Go harness and recorder; sync.Mutex / channel / timer semantics. Fairness and wall-clock behaviour of timers are outside the model.",
         "technique": "Coq proof (one inductive invariant over label lists + a trace counter) over an executable LTS + trace-conformance check (vm_compute replay of the recorded log) + property oracle on the implementation",
     },
 }
